@@ -49,6 +49,7 @@ from pyrates.frontend.template.edge import EdgeTemplate
 from pyrates.frontend.template.node import NodeTemplate
 from pyrates.frontend.template.operator import OperatorTemplate
 from pyrates.ir.circuit import get_unique_label, CircuitIR, PyRatesException, PyRatesWarning
+from pyrates.ir.circuit import in_edge_indices, in_edge_vars
 from pyrates.ir.edge import EdgeIR
 from pyrates.ir.node import clear_ir_caches
 
@@ -777,6 +778,12 @@ class CircuitTemplate(AbstractBaseTemplate):
         if not edge_values:
             edge_values = {}
         scalar_shape = (1,) if vectorize else ()
+
+        # the vectorization caches and in-edge counters are scratch space of a single compilation: start from a clean
+        # slate, otherwise nodes/labels/counters of an earlier (possibly failed or never cleared) compilation leak in
+        clear_ir_caches()
+        in_edge_indices.clear()
+        in_edge_vars.clear()
 
         # turn nodes from templates into IRs
         ####################################
